@@ -11,6 +11,9 @@ Five streams of cases (illc and boys were added in round c, see `ill_contracted_
  * block: shell quartets, l in 0..3 (quick: stratified seed-dependent sample; thorough: all 256 l-tuples);
  * basis: 2-4 shell bases of every coordinate-type pattern, both notations, with/without transform, plus the
    implementation-only relation physicist == chemist.transpose(0,2,1,3) (bitwise);
+ * near-pair-far / many-primitives (block level, `near_pair_far_blocks`, `many_primitive_blocks`): a bra pair on two DISTINCT
+   centres that agree to a relative 1e-5 of their coordinates 50-100 bohr from the origin; shells with 9-10 primitives
+   each (more than 4096 primitive quartets);
  * ill: the FIXED list of realistic ill-conditioned quartets (core s exponents 1e3..1e5 against diffuse d/f
    shells, exponents 0.05..0.5; plus six quartets INSIDE the random exponent range: diffuse s/p on one centre
    paired with a tight d/f on a centre 2-4 bohr away, against a diffuse d/f pair), both bra/ket orientations.
@@ -62,7 +65,13 @@ RULE = ("block level: shell quartets with l in 0..3; quick = stratified seed-dep
         "(0, 5e-324 .. 1e6, every decade of 1e-32..1e-24) + 21 seeded 53-bit arguments, mpmath at 1e-11 relative. Non-trivial: L>0 or K>1 or M>1 and a block that is not "
         "identically zero; distinct by the hash of the exact input; hp stream: 6 (quick) / 48 (thorough) quartets of total "
         "L<=4 / L<=6 incl. all-s, K<=2, M<=2, all five geometries, replayed at 260 bits (Boys by mpmath) against command 20, "
-        "tolerance 1e-18 x largest sum|primitive terms| of the block")
+        "tolerance 1e-18 x largest sum|primitive terms| of the block; near-pair-far blocks (quick 3, thorough 24; K = M = 1): two "
+        "shells with l in 1..2 (exponents 4..10) on DISTINCT centres agreeing per component to within (0.5..0.95)e-5 RELATIVE "
+        "to the coordinate, 50-100 bohr per axis from the origin (3e-4..1e-3 bohr apart, 53-bit coordinates) as the bra, s / p "
+        "shells on one or two neighbour centres as the ket ((pA pB|sC sC), (dA pB|sC sD), (pA pB|pB pA), ...); many-primitives "
+        "block (quick 1, thorough 3): (s s|s p) on two atoms with 9, 9, 9, 9 (thorough also 10, 9, 9, 9, p in other positions) "
+        "primitives per shell, even-tempered exponents alpha_0 r^k (alpha_0 0.06..0.2, r 2.2..2.8), coefficients k/8 of both "
+        "signs, 6561 primitive quartets (exact model ~10-15 s)")
 ASSUMPTIONS = [
     "floating-point rounding of the NumPy pipeline and of scipy.special.hyp1f1 is not modelled: the 1e-6*Schwarz "
     "accuracy clause is decided on the generated inputs against the exact value (Boys function by mpmath, 260 bits)",
@@ -783,6 +792,51 @@ def gen_wide_blocks(rng, n, lsum_max, cap):
     return cases
 
 
+def near_pair_far_blocks(rng, n):
+    """quartets containing two shells with l >= 1 on DISTINCT centres A, B that agree per component to within 1e-5
+    RELATIVE to the coordinate (3e-4 .. 1e-3 bohr apart, 50-100 bohr per axis from the origin; lib.far_near_centres)
+    and s / p shells on one or two ordinary neighbour centres; K = M = 1, exponents 4..10 on the pair, 1..10 on the
+    neighbours, 53-bit coordinates.  The pair is the bra of the quartet as given and of its best-conditioned
+    orientation ((pA pB|sC sC): every orientation ties, the given one is evaluated; (dA pB|sC sD), (pA pB|pB pA),
+    (pB dA|sC pC)), so a kernel that treats A and B as one centre (tolerance relative to the coordinates) in the
+    bra is off by ~|AB| sqrt(alpha) ~ 1e-3 of the Schwarz scale."""
+    pats = [((1, "A"), (1, "B"), (0, "C"), (0, "C")), ((2, "A"), (1, "B"), (0, "C"), (0, "D")),
+            ((1, "A"), (1, "B"), (1, "B"), (1, "A")), ((1, "B"), (2, "A"), (0, "C"), (1, "C")),
+            ((1, "A"), (2, "B"), (0, "D"), (0, "C")), ((2, "B"), (2, "A"), (0, "C"), (0, "C"))]
+    cases = []
+    for i in range(n):
+        A, B, C, D = lib.far_near_centres(rng, nextra=2)
+        at = {"A": A, "B": B, "C": C, "D": D}
+        ss = [mk_shell(rng, l, 1, 1, *((4.0, 10.0) if w in "AB" else (1.0, 10.0)), at[w]) for l, w in pats[i % len(pats)]]
+        cases.append({"kind": "block", "geom": "near-pair-far", "s": [x.to_json() for x in ss]})
+    return cases
+
+
+def many_primitive_blocks(rng, tier):
+    """(s s | s p) on two atoms with K = 9, 9, 9, 9 primitives per shell (9^4 = 6561 primitive quartets; published s
+    shells of cc-pVXZ / ANO sets carry 8-13 primitives): even-tempered exponents alpha_k = alpha_0 r^k (alpha_0 0.06..0.2, r
+    2.2..2.8, i.e. 0.1 .. ~200), coefficients k/8 of both signs.  Not all-s (that is another routine).  Exact model: ~10 s
+    for the block and its two Schwarz blocks.  Thorough: also K = 10, 9, 9, 9 with the p shell in another position."""
+    cases = []
+    for j in range(1 if tier == "quick" else 3):
+        A, B = rnd_centre(rng, 1), rnd_centre(rng, 1)
+        while A == B:
+            B = rnd_centre(rng, 1)
+        ks = [9, 9, 9, 9] if j == 0 else [10, 9, 9, 9]
+        ss = []
+        for i, k in enumerate(ks):
+            a0, r = rng.uniform(0.06, 0.2), rng.uniform(2.2, 2.8)
+            exps = [Fraction(float(a0 * r ** t)) for t in range(k)][::-1]          # tight -> diffuse, as in basis-set files
+            coeffs = [[Fraction(rng.choice([-1, 1]) * rng.randint(1, 16), 8)] for _ in range(k)]
+            ss.append(XShell(1 if i == 3 else 0, A if i < 2 else B, exps, coeffs))
+        if j == 1:
+            ss = [ss[3], ss[2], ss[0], ss[1]]
+        elif j == 2:
+            ss = [ss[0], ss[3], ss[1], ss[2]]
+        cases.append({"kind": "block", "geom": "many-primitives", "s": [x.to_json() for x in ss]})
+    return cases
+
+
 def basis_cost(shells, largest=False):
     js = [s.to_json() for s in shells]
     cs = [_call_cost([js[i], js[j], js[k], js[l]]) for (i, j, k, l) in canonical_quartets(len(js))]
@@ -870,6 +924,8 @@ def gen_cases(tier, seed):
     cases += ill_contracted_list()
     cases += gen_wide_blocks(random.Random(1000003 * seed + 444), 4 if tier == "quick" else 40,
                              4 if tier == "quick" else 6, 8.0 if tier == "quick" else 40.0)
+    cases += near_pair_far_blocks(random.Random(1000003 * seed + 4444), 3 if tier == "quick" else 24)
+    cases += many_primitive_blocks(random.Random(1000003 * seed + 44444), tier)
     cases += ill_basis_cases()
     cases += gen_basis_cases(random.Random(1000003 * seed + 44), tier)
     # the Boys function itself: orders 0..12 (four f shells), arguments 0, 5e-324 .. 1e6
